@@ -8,6 +8,7 @@ var Registry = map[string]func() *vlib.Plan{
 	"C02": C02Plan,
 	"C03": C03Plan,
 	"C04": C04Plan,
+	"C05": C05Plan,
 	"C06": C06Plan,
 	"C07": C07Plan,
 	"C08": C08Plan,
